@@ -13,6 +13,7 @@ import (
 	"encoding/json"
 	"errors"
 	"fmt"
+	"io"
 	"net/http"
 	"net/http/httptest"
 	"net/url"
@@ -25,10 +26,14 @@ import (
 
 	authenticationv1 "k8s.io/api/authentication/v1"
 	authorizationv1 "k8s.io/api/authorization/v1"
+	apierrors "k8s.io/apimachinery/pkg/api/errors"
 	metav1 "k8s.io/apimachinery/pkg/apis/meta/v1"
 	"k8s.io/apimachinery/pkg/runtime"
 	"k8s.io/apimachinery/pkg/runtime/serializer"
+	"k8s.io/apimachinery/pkg/util/sets"
 	"k8s.io/apiserver/pkg/authentication/authenticator"
+	"k8s.io/apiserver/pkg/authentication/request/bearertoken"
+	genericapifilters "k8s.io/apiserver/pkg/endpoints/filters"
 	"k8s.io/apiserver/pkg/authentication/user"
 	"k8s.io/apiserver/pkg/authorization/authorizer"
 	apirequest "k8s.io/apiserver/pkg/endpoints/request"
@@ -40,7 +45,10 @@ import (
 	tokwebhook "github.com/kubewharf/kubegateway/pkg/gateway/authentication/token/webhook"
 	sarwebhook "github.com/kubewharf/kubegateway/pkg/gateway/authorization/webhook"
 
+	proxyv1alpha1 "github.com/kubewharf/kubegateway/pkg/apis/proxy/v1alpha1"
 	"github.com/kubewharf/kubegateway/pkg/clusters"
+	"github.com/kubewharf/kubegateway/pkg/gateway/endpoints/monitor"
+	proxydispatcher "github.com/kubewharf/kubegateway/pkg/gateway/proxy/dispatcher"
 	"github.com/kubewharf/kubegateway/pkg/gateway/endpoints/filters"
 	"github.com/kubewharf/kubegateway/pkg/gateway/endpoints/request"
 
@@ -54,6 +62,7 @@ const (
 )
 
 var errUpstream = errors.New("scripted upstream failure")
+var errRetryable = errors.New("scripted retryable failure")
 
 const statusErrMsg = "scripted status error"
 
@@ -92,9 +101,11 @@ type reqRec struct {
 	m        *Macro
 	calls    int // ClientFor calls made by this request
 	lastPick *pick
+	picks    map[*epRec]*pick // every endpoint ClientFor handed out during this request (latest pick of each)
 	hits     []Hit
 	midDone  bool
 	problem  string
+	attempts int // attempts of the review made so far (retries after a retryable error)
 }
 
 type world struct {
@@ -116,6 +127,9 @@ type world struct {
 	segStart     time.Time
 	stalled      bool // a stretch between two sleeps took longer than half the short TTL
 	dropTimeouts int
+
+	pipes     int     // whole-chain requests started
+	lastProxy *epRec  // endpoint whose ProxyTransport received the last proxied request
 
 	terminated    int      // bound requests ended by WithUpstreamInfo (host not proxied)
 	chainProblems []string // anomalies outside the authenticator / authorizer
@@ -155,6 +169,10 @@ func (p *provider) ClientFor(host string) (*clusters.ClusterInfo, kubernetes.Int
 					inst = id
 				}
 				top.lastPick = &pick{inst: inst, ep: ep, ready: ep.info.IsReady()}
+				if top.picks == nil {
+					top.picks = map[*epRec]*pick{}
+				}
+				top.picks[ep] = top.lastPick
 			}
 		}
 	}
@@ -167,6 +185,7 @@ func newWorld(cs *Case) *world {
 	p := &provider{w}
 	w.authn = tokwebhook.NewMultiClusterTokenReviewAuthenticator(p, ttlDur(cs.Cfg.SuccessTTL), ttlDur(cs.Cfg.FailureTTL), nil)
 	w.authz = sarwebhook.NewMultiClusterSubjectAccessReviewAuthorizer(p, ttlDur(cs.Cfg.AllowTTL), ttlDur(cs.Cfg.DenyTTL))
+	setBackoff(w.authz, time.Millisecond)
 	for _, t := range []int{cs.Cfg.SuccessTTL, cs.Cfg.FailureTTL, cs.Cfg.AllowTTL, cs.Cfg.DenyTTL} {
 		if ttlDur(t) == shortDur {
 			w.shortTTL = true
@@ -177,6 +196,20 @@ func newWorld(cs *Case) *world {
 	}
 	w.segStart = time.Now()
 	return w
+}
+
+// setBackoff shortens the authorizer's retry back-off (unexported configuration field `initialBackoff`, 500 ms in
+// production) so that histories with retried reviews do not sleep; nothing else is written by the harness.
+func setBackoff(a authorizer.Authorizer, d time.Duration) {
+	defer func() { _ = recover() }()
+	v := reflect.ValueOf(a)
+	if v.Kind() != reflect.Ptr || v.Elem().Kind() != reflect.Struct {
+		return
+	}
+	f := v.Elem().FieldByName("initialBackoff")
+	if f.IsValid() && f.Type() == reflect.TypeOf(time.Duration(0)) && f.CanAddr() {
+		*(*time.Duration)(unsafe.Pointer(f.UnsafeAddr())) = d
+	}
 }
 
 func (w *world) close() {
@@ -206,6 +239,10 @@ func (w *world) inst(id int) *instRec {
 		return r
 	}
 	info := clusters.NewEmptyClusterInfo(w.instName(id), nil, nil, "", nil)
+	// the real Sync installs a catch-all dispatch policy (endpoints are not synced for a cluster without rest config)
+	_ = info.Sync(&proxyv1alpha1.UpstreamCluster{ObjectMeta: metav1.ObjectMeta{Name: info.Cluster},
+		Spec: proxyv1alpha1.UpstreamClusterSpec{DispatchPolicies: []proxyv1alpha1.DispatchPolicy{{Rules: []proxyv1alpha1.DispatchPolicyRule{{
+			Verbs: []string{"*"}, APIGroups: []string{"*"}, Resources: []string{"*"}, NonResourceURLs: []string{"*"}}}}}}})
 	r := &instRec{id: id, info: info, eps: map[string]*epRec{}}
 	w.insts[id] = r
 	w.byPtr[info] = id
@@ -277,9 +314,9 @@ func (s *stubClient) hit() *reqRec {
 		return nil
 	}
 	h := Hit{Inst: s.ep.inst, Ep: rig.Hex(s.ep.name), PickedInst: -2}
-	if top.lastPick != nil && top.lastPick.ep == s.ep {
-		h.ReadyAtPick = top.lastPick.ready
-		h.PickedInst = top.lastPick.inst
+	if pk := top.picks[s.ep]; pk != nil {
+		h.ReadyAtPick = pk.ready
+		h.PickedInst = pk.inst
 	}
 	top.hits = append(top.hits, h)
 	return top
@@ -294,6 +331,12 @@ func (t *stubTokenReviews) Create(ctx context.Context, in *authenticationv1.Toke
 	}
 	tr := in.DeepCopy()
 	ans := w.tokAnswer(ep.inst, tr.Spec.Token)
+	if top != nil {
+		top.attempts++
+		if top.attempts <= ans.Retries {
+			return nil, apierrors.NewInternalError(errRetryable)
+		}
+	}
 	switch ans.K {
 	case "ok":
 		tr.Status.Authenticated = true
@@ -324,6 +367,12 @@ func (t *stubSARs) Create(ctx context.Context, in *authorizationv1.SubjectAccess
 	if !known && top != nil {
 		top.problem = "the review carries a spec that is not the spec of any attributes of the case: " + string(b)
 	}
+	if top != nil {
+		top.attempts++
+		if top.attempts <= ans.Retries {
+			return nil, apierrors.NewInternalError(errRetryable)
+		}
+	}
 	if ans.K == "err" {
 		return nil, errUpstream
 	}
@@ -331,10 +380,23 @@ func (t *stubSARs) Create(ctx context.Context, in *authorizationv1.SubjectAccess
 	return sar, nil
 }
 
+// upstreamStub stands for the upstream API server behind one endpoint: it records that it received a proxied request.
+type upstreamStub struct {
+	w  *world
+	ep *epRec
+}
+
+func (u *upstreamStub) RoundTrip(req *http.Request) (*http.Response, error) {
+	u.w.lastProxy = u.ep
+	return &http.Response{StatusCode: 200, Status: "200 OK", Proto: "HTTP/1.1", ProtoMajor: 1, ProtoMinor: 1,
+		Header: http.Header{"Content-Type": []string{"application/json"}}, Body: io.NopCloser(strings.NewReader("{}")), Request: req}, nil
+}
+
 func (w *world) newEndpoint(i *instRec, name string, healthy, disabled bool) *epRec {
 	ep := &epRec{inst: i.id, name: name}
 	cs := &stubClient{Clientset: fake.NewSimpleClientset(), w: w, ep: ep}
 	ep.info = clusters.VerifC12AddEndpoint(i.info, name, cs, healthy, disabled)
+	ep.info.ProxyTransport = &upstreamStub{w: w, ep: ep} // what the dispatcher proxies through: records who received the request
 	i.eps[name] = ep
 	w.byClient[kubernetes.Interface(cs)] = ep
 	return ep
@@ -600,38 +662,45 @@ func requestCtx(hostport string) (context.Context, string, error) {
 	return request.WithExtraRequestInfo(req.Context(), info), info.Hostname, nil
 }
 
+// tokStage: one call of the real authenticator for macro m, observed
+func (w *world) tokStage(ctx context.Context, host string, upstream int, m *Macro, tok string, pipe int) (*authenticator.Response, bool, error) {
+	w.tick()
+	own, ownReady := w.resolve(host)
+	r := w.beginReq("tok", m)
+	var resp *authenticator.Response
+	var ok bool
+	var err error
+	msg, panicked := rig.Recover(func() { resp, ok, err = w.authn.AuthenticateToken(ctx, tok) })
+	w.endReq()
+	out := ImplOut{Kind: "tok", Rid: r.rid, Host: m.Host, Tok: m.Tok, Own: own, OwnReady: ownReady, Upstream: upstream,
+		Time: w.clock, Reviewed: len(r.hits) > 0, Hits: r.hits, Problem: r.problem, Pipe: pipe, Proxied: -1}
+	switch {
+	case panicked:
+		out.Problem = "panic: " + msg
+		out.Res = TokRes{K: "err", E: "panic"}
+		err = errors.New("panic")
+	case err != nil:
+		out.Res = TokRes{K: "err", E: errKind(err)}
+		if ok {
+			out.Problem = "ok=true together with an error"
+		}
+	case ok:
+		name := ""
+		if resp != nil && resp.User != nil {
+			name = resp.User.GetName()
+		}
+		out.Res = TokRes{K: "auth", User: rig.Hex(name)}
+	default:
+		out.Res = TokRes{K: "unauth"}
+	}
+	w.outs = append(w.outs, out)
+	return resp, ok, err
+}
+
 func (w *world) doTok(m *Macro) {
 	tok := rig.UnHex(m.Tok)
 	reached, problem := w.through(m, func(ctx context.Context, host string, upstream int) {
-		w.tick()
-		own, ownReady := w.resolve(host)
-		r := w.beginReq("tok", m)
-		var resp *authenticator.Response
-		var ok bool
-		var err error
-		msg, panicked := rig.Recover(func() { resp, ok, err = w.authn.AuthenticateToken(ctx, tok) })
-		w.endReq()
-		out := ImplOut{Kind: "tok", Rid: r.rid, Host: m.Host, Tok: m.Tok, Own: own, OwnReady: ownReady, Upstream: upstream,
-			Time: w.clock, Reviewed: len(r.hits) > 0, Hits: r.hits, Problem: r.problem}
-		switch {
-		case panicked:
-			out.Problem = "panic: " + msg
-			out.Res = TokRes{K: "err", E: "panic"}
-		case err != nil:
-			out.Res = TokRes{K: "err", E: errKind(err)}
-			if ok {
-				out.Problem = "ok=true together with an error"
-			}
-		case ok:
-			name := ""
-			if resp != nil && resp.User != nil {
-				name = resp.User.GetName()
-			}
-			out.Res = TokRes{K: "auth", User: rig.Hex(name)}
-		default:
-			out.Res = TokRes{K: "unauth"}
-		}
-		w.outs = append(w.outs, out)
+		w.tokStage(ctx, host, upstream, m, tok, 0)
 	})
 	w.afterChain(reached, problem)
 }
@@ -704,31 +773,143 @@ func decisionName(d authorizer.Decision) string {
 	return fmt.Sprintf("decision-%d", int(d))
 }
 
+// sarStage: one call of the real authorizer for macro m, observed
+func (w *world) sarStage(ctx context.Context, host string, upstream int, m *Macro, pipe int) (authorizer.Decision, error) {
+	rec := attrsRecord(&w.cs.Attrs[m.Attrs])
+	w.tick()
+	own, ownReady := w.resolve(host)
+	r := w.beginReq("sar", m)
+	var d authorizer.Decision
+	var reason string
+	var err error
+	msg, panicked := rig.Recover(func() { d, reason, err = w.authz.Authorize(ctx, rec) })
+	w.endReq()
+	out := ImplOut{Kind: "sar", Rid: r.rid, Host: m.Host, Attrs: m.Attrs, Own: own, OwnReady: ownReady, Upstream: upstream,
+		Time: w.clock, Reviewed: len(r.hits) > 0, Hits: r.hits, Problem: r.problem, Pipe: pipe, Proxied: -1}
+	if panicked {
+		out.Problem = "panic: " + msg
+		out.Res = SarRes{D: "deny", E: "panic"}
+		d, err = authorizer.DecisionDeny, errors.New("panic")
+	} else {
+		out.Res = SarRes{D: decisionName(d), Reason: rig.Hex(reason), E: errKind(err)}
+	}
+	w.outs = append(w.outs, out)
+	return d, err
+}
+
 func (w *world) doSar(m *Macro) {
 	if m.Attrs < 0 || m.Attrs >= len(w.cs.Attrs) {
 		w.chainProblems = append(w.chainProblems, "attrs index out of range")
 		return
 	}
-	rec := attrsRecord(&w.cs.Attrs[m.Attrs])
 	reached, problem := w.through(m, func(ctx context.Context, host string, upstream int) {
-		w.tick()
-		own, ownReady := w.resolve(host)
-		r := w.beginReq("sar", m)
-		var d authorizer.Decision
-		var reason string
-		var err error
-		msg, panicked := rig.Recover(func() { d, reason, err = w.authz.Authorize(ctx, rec) })
-		w.endReq()
-		out := ImplOut{Kind: "sar", Rid: r.rid, Host: m.Host, Attrs: m.Attrs, Own: own, OwnReady: ownReady, Upstream: upstream,
-			Time: w.clock, Reviewed: len(r.hits) > 0, Hits: r.hits, Problem: r.problem}
+		w.sarStage(ctx, host, upstream, m, 0)
+	})
+	w.afterChain(reached, problem)
+}
+
+// recToken lets the real WithAuthentication / bearertoken filters drive the observed authenticator stage.
+type recToken struct {
+	w    *world
+	m    *Macro
+	pipe int
+}
+
+func (t *recToken) AuthenticateToken(ctx context.Context, token string) (*authenticator.Response, bool, error) {
+	info, _ := request.ExtraRequestInfoFrom(ctx)
+	host := ""
+	if info != nil {
+		host = info.Hostname
+	}
+	return t.w.tokStage(ctx, host, t.w.upstreamOf(info), t.m, token, t.pipe)
+}
+
+func (w *world) upstreamOf(info *request.ExtraRequestInfo) int {
+	if info == nil || info.UpstreamCluster == nil {
+		return -1
+	}
+	if id, ok := w.byPtr[info.UpstreamCluster]; ok {
+		return id
+	}
+	return -3
+}
+
+var (
+	throughput         = monitor.NewThroughputMonitor()
+	requestInfoFactory = &apirequest.RequestInfoFactory{APIPrefixes: sets.NewString("api", "apis"), GrouplessAPIPrefixes: sets.NewString("api")}
+)
+
+// doPipe: one request through the chain of cmd/kube-gateway/app/proxy.go, with scheduled events between every pair of
+// stages. Real: WithRequestInfo, WithTerminationMetrics, WithRequestReaderWriterWrapper, WithExtraRequestInfo,
+// WithUpstreamInfo, WithAuthentication + bearertoken over the real authenticator, the real authorizer (called with the
+// case's impersonation attributes and gated like WithNoLoggingImpersonation: error or anything but Allow => 403), and the
+// REAL dispatcher, whose endpoints' ProxyTransport records which cluster instance receives the request.
+func (w *world) doPipe(m *Macro) {
+	w.pipes++
+	pipe := w.pipes
+	if m.Attrs >= len(w.cs.Attrs) {
+		w.chainProblems = append(w.chainProblems, "attrs index out of range")
+		return
+	}
+	real := proxydispatcher.NewDispatcher(w.mgr, false)
+	var h http.Handler = http.HandlerFunc(func(rw http.ResponseWriter, req *http.Request) {
+		w.runMacros(m.MidD)
+		info, _ := request.ExtraRequestInfoFrom(req.Context())
+		w.lastProxy = nil
+		rec := httptest.NewRecorder()
+		msg, panicked := rig.Recover(func() { real.ServeHTTP(rec, req) })
+		out := ImplOut{Kind: "disp", Rid: -1, Host: m.Host, Upstream: w.upstreamOf(info), Own: -1, Time: w.clock, Pipe: pipe, Proxied: -1, Code: rec.Code}
+		if w.lastProxy != nil {
+			out.Proxied = w.lastProxy.inst
+		}
 		if panicked {
-			out.Problem = "panic: " + msg
-			out.Res = SarRes{D: "deny", E: "panic"}
-		} else {
-			out.Res = SarRes{D: decisionName(d), Reason: rig.Hex(reason), E: errKind(err)}
+			out.Problem = "panic in the dispatcher: " + msg
 		}
 		w.outs = append(w.outs, out)
+		rw.WriteHeader(rec.Code)
 	})
+	afterAuthn := h
+	h = http.HandlerFunc(func(rw http.ResponseWriter, req *http.Request) {
+		w.runMacros(m.MidA)
+		if m.Attrs >= 0 {
+			info, _ := request.ExtraRequestInfoFrom(req.Context())
+			host := ""
+			if info != nil {
+				host = info.Hostname
+			}
+			d, err := w.sarStage(req.Context(), host, w.upstreamOf(info), m, pipe)
+			if err != nil || d != authorizer.DecisionAllow {
+				rw.WriteHeader(http.StatusForbidden)
+				return
+			}
+		}
+		afterAuthn.ServeHTTP(rw, req)
+	})
+	h = genericapifilters.WithAuthentication(h, bearertoken.New(&recToken{w, m, pipe}), http.HandlerFunc(func(rw http.ResponseWriter, _ *http.Request) {
+		rw.WriteHeader(http.StatusUnauthorized)
+	}), nil)
+	afterBind := h
+	h = http.HandlerFunc(func(rw http.ResponseWriter, req *http.Request) {
+		w.runMacros(m.Mid0)
+		afterBind.ServeHTTP(rw, req)
+	})
+	reached := false
+	bound := h
+	h = http.HandlerFunc(func(rw http.ResponseWriter, req *http.Request) { reached = true; bound.ServeHTTP(rw, req) })
+	h = filters.WithUpstreamInfo(h, w.mgr, codecs)
+	h = filters.WithExtraRequestInfo(h, infoFactory, codecs)
+	h = filters.WithRequestReaderWriterWrapper(h, throughput)
+	h = filters.WithTerminationMetrics(h)
+	h = genericapifilters.WithRequestInfo(h, requestInfoFactory)
+	req := httptest.NewRequest("GET", "/api/v1/namespaces/default/pods", nil)
+	req.Host = rig.UnHex(m.Host)
+	req.Header.Set("Authorization", "Bearer "+rig.UnHex(m.Tok))
+	rec := httptest.NewRecorder()
+	msg, panicked := rig.Recover(func() { h.ServeHTTP(rec, req) })
+	problem := ""
+	if panicked {
+		problem = "panic in the filter chain: " + msg
+	}
 	w.afterChain(reached, problem)
 }
 
@@ -744,6 +925,8 @@ func (w *world) runMacros(ms []Macro) {
 			w.doTok(m)
 		case "sar":
 			w.doSar(m)
+		case "pipe":
+			w.doPipe(m)
 		}
 	}
 }
